@@ -42,6 +42,28 @@ fn main() {
                     std::process::exit(2);
                 }
             };
+            if let Some(target) = replay.sub.strip_prefix("fuzz:") {
+                // libFuzzer artifact: run the target's own function in-process
+                let hex = match &replay.case {
+                    rv::runner::ReplayCase::Text(h) => h.clone(),
+                    _ => String::new(),
+                };
+                let bytes: Vec<u8> = (0..hex.len() / 2).filter_map(|i| u8::from_str_radix(&hex[2 * i..2 * i + 2], 16).ok()).collect();
+                let (prop2, rep) = rv::fuzzsupport::replay_bytes(target, &bytes);
+                rv::outln!("replay fuzz:{} property={}\n  case: {}\n  observed: {}", target, prop2, rep.key, rep.note);
+                let known = rv::runner::load_findings();
+                let mut bad = false;
+                for f in &rep.fails {
+                    let listed = known.iter().any(|k| k.property == prop2 && k.status == "known" && k.signature == f.sig);
+                    rv::outln!("  fail sig={} known={} detail={}", f.sig, listed, f.detail);
+                    bad |= !listed;
+                }
+                if bad {
+                    rv::outln!("VIOLATION property={} replay={}", prop2, args[2]);
+                    std::process::exit(1);
+                }
+                std::process::exit(0);
+            }
             let ctx = Ctx::new(&prop, Tier::Quick, seed, Some(replay));
             if !rv::checks::run(&ctx) {
                 std::process::exit(2);
